@@ -89,3 +89,14 @@ Definition py_klist_eq_slots (l : list K) (slots : list (option K)) : bool :=
 
 (* `self is other` for an explicit operand: never the same object (the aliasing calls are SelfOp / SelfMix) *)
 Definition py_same_object (s : iset) (o : operand) : bool := false.
+
+(* ---- iter_slice ------------------------------------------------------------------------------------------- *)
+Definition opt_lt0 (x : option Z) : bool := match x with Some i => (i <? 0)%Z | None => false end.
+(* islice(iterable, start, stop, step): None = ValueError (step must be a positive integer or None) *)
+Definition py_islice (l : list K) (start stop step : option Z) : option (list K) :=
+  let a := Z.to_nat (opt_get start) in
+  let b := match stop with Some z => Some (Z.to_nat z) | None => None end in
+  match step with
+  | None => Some (islice l a b 1)
+  | Some z => if (z <=? 0)%Z then None else Some (islice l a b (Z.to_nat z))
+  end.
